@@ -69,6 +69,19 @@ fn build(case: &Case) -> InstRep {
         }
         "linear" => FnRep::Lin { terms: lin, c },
         "quadratic" => FnRep::Quad { entries: quad, lin: if lin.is_empty() && c == 0.0 { None } else { Some((lin, c)) } },
+        "polynomial-split" => {
+            // the constant split over two degree-0 monomials (c - 1 first, + 1 last), the first term
+            // listed twice (2a and -a): wire-legal, same polynomial (exactly so for dyadic coefficients)
+            let mut terms: Vec<(Vec<u64>, f64)> = vec![(vec![], c - 1.0)];
+            let all: Vec<(Vec<u64>, f64)> = case.terms.iter().map(|t| (t.0.clone(), fval((t.1, t.2)))).collect();
+            if let Some((ids, a)) = all.first().cloned() {
+                terms.push((ids.clone(), 2.0 * a));
+                terms.extend(all.iter().skip(1).rev().cloned());
+                terms.push((ids.iter().rev().cloned().collect(), -a));
+            }
+            terms.push((vec![], 1.0));
+            FnRep::Poly { terms }
+        }
         _ => {
             let mut terms: Vec<(Vec<u64>, f64)> = case.terms.iter().map(|t| (t.0.clone(), fval((t.1, t.2)))).collect();
             if c != 0.0 {
@@ -246,7 +259,7 @@ pub fn check_case(l: &mut Local, case: &Case) {
     if let Some(reason) = reject_reason {
         l.nontrivial += 1;
         match result {
-            Ok(_) => l.violation(&format!("{sig0}/not-rejected/{reason}"), || json!(case), format!("{sig0} succeeded although it must be rejected ({reason})")),
+            Ok(_) => l.violation(&format!("{sig0}/not-rejected/{reason}{}", if reason == "not-an-inequality" { format!("/equality={}", case.equality) } else { String::new() }), || json!(case), format!("{sig0} succeeded although it must be rejected ({reason})")),
             Err(_) => {
                 if msg != before {
                     l.violation(&format!("{sig0}/rejected-but-modified"), || json!(case), format!("{sig0} failed ({reason}) but modified the instance"));
@@ -370,6 +383,11 @@ pub fn check_case(l: &mut Local, case: &Case) {
             if case.method == "add_slack" {
                 match ret {
                     Some(b) if b == slack_coef && b >= 0.0 => {}
+                    // non-dyadic coefficients in an unnormalised message (2a - a for a = 1/3): the interval
+                    // lower bound of a constraint whose exact lower bound is 0 is rounding noise of the
+                    // order 1e-16, and so is b = -lower/S, which is then dropped from the function like
+                    // any coefficient below machine epsilon. Not a statement about the property.
+                    Some(b) if !dyadic && !normalised && b.abs() <= 1e-12 && slack_coef == 0.0 => l.bump("boundary_cases_not_asserted", 1),
                     other => l.violation("add_slack/reported-coefficient", || json!(case), format!("returned {other:?}, coefficient of the slack in the new function is {slack_coef}")),
                 }
             }
@@ -555,14 +573,23 @@ pub fn run(ctx: &Ctx) -> Finish {
                             l.samples.push(((*nv * 10_000_000 + i) as u64, json!(case)));
                         }
                         check_case(l, &case);
+                        if (bi + i) % 3 == 0 {
+                            let mut c = case.clone();
+                            c.repr = "polynomial-split".into();
+                            check_case(l, &c);
+                        }
                         // rejection conditions on a sub-grid of the same bases
                         if *p == params[1] && (bi + i) % 7 == 0 {
                             let mut c = case.clone();
                             c.constraint_id = 99;
                             check_case(l, &c);
-                            let mut c = case.clone();
-                            c.equality = EQ_ZERO;
-                            check_case(l, &c);
+                            // every value of the equality field other than "<= 0": = 0, unspecified (the
+                            // protobuf default) and a raw value outside the enumeration
+                            for e in [EQ_ZERO, 0, 7] {
+                                let mut c = case.clone();
+                                c.equality = e;
+                                check_case(l, &c);
+                            }
                             for v in &vars {
                                 let mut c = case.clone();
                                 c.continuous_var = v.0;
